@@ -9,6 +9,7 @@ import GraphrsModel.ObsComm
 import GraphrsModel.ObsGen
 import GraphrsModel.ObsXml
 import GraphrsModel.ObsDegen
+import GraphrsModel.ObsEsc
 open Graphrs
 
 /-- `store <specs> <universe> <w> <ops>`: the concrete model's and the specification's
@@ -63,6 +64,7 @@ def handle (line : String) : String :=
       | "xml" => run handleXml
       | "par" => "m.build=0"
       | "degen" => run handleDegen
+      | "esc" => run handleEsc
       | _ => "bad-request command"
 
 partial def loop (h : IO.FS.Stream) (out : IO.FS.Stream) : IO Unit := do
